@@ -2,6 +2,10 @@ import CkbVerif.Lemmas.IndexerPool
 import CkbVerif.Lemmas.IndexerWF
 import CkbVerif.Lemmas.RichIndexer
 import CkbVerif.Lemmas.IndexerFollow
+import CkbVerif.Lemmas.RichCells
+import CkbVerif.Lemmas.RichReach
+import CkbVerif.Lemmas.RichCellPage
+import CkbVerif.Lemmas.RichHistory
 
 /-!
 # C18, round 6 — the tx-pool overlay, the handlers' snapshot discipline, the descending seek key,
@@ -217,81 +221,6 @@ theorem desc_seek_17_witness :
 namespace RichIndexer
 open CkbVerif.Rich
 
-/-- one step of the sync loop against the rich-indexer -/
-inductive ROp
-  | app (b : Block)
-  | rb
-
-/-- the database after a history that starts in `d` -/
-def runOps (d : DB) : List ROp → DB
-  | [] => d
-  | .app b :: r => runOps (appendBlock d b) r
-  | .rb :: r => runOps (Rich.rollback d) r
-
-/-- the chain that survives a history (starting from the chain `c`): `app` pushes, `rb` pops -/
-def chainOf (c : List Block) : List ROp → List Block
-  | [] => c
-  | .app b :: r => chainOf (c ++ [b]) r
-  | .rb :: r => chainOf c.dropLast r
-
-/-- the history is one the sync loop produces: every appended block passes the decidable layer check
-(`layerCheckB`, bit `l` of the driver's `wf` op) against the database it is appended to, and a
-rollback is never applied when no appended block is left -/
-def histOKB (d : DB) (c : List Block) : List ROp → Bool
-  | [] => true
-  | .app b :: r => layerCheckB d (appendBlock d b) && histOKB (appendBlock d b) (c ++ [b]) r
-  | .rb :: r => !c.isEmpty && histOKB (Rich.rollback d) c.dropLast r
-
-def layersOK : DB → List Block → Prop
-  | _, [] => True
-  | db, b :: r => layerCheckB db (appendBlock db b) = true ∧ layersOK (appendBlock db b) r
-
-theorem layersOK_snoc (db : DB) (c : List Block) (b : Block) (h : layersOK db c)
-    (hb : layerCheckB (c.foldl appendBlock db) (appendBlock (c.foldl appendBlock db) b) = true) :
-    layersOK db (c ++ [b]) := by
-  induction c generalizing db with
-  | nil => exact ⟨hb, trivial⟩
-  | cons x r ih => exact ⟨h.1, ih _ h.2 hb⟩
-
-theorem layersOK_dropLast (db : DB) (c : List Block) (b : Block) (h : layersOK db (c ++ [b])) :
-    layersOK db c ∧ layerCheckB (c.foldl appendBlock db) (appendBlock (c.foldl appendBlock db) b) = true := by
-  induction c generalizing db with
-  | nil => exact ⟨trivial, h.1⟩
-  | cons x r ih =>
-    obtain ⟨h1, h2⟩ := ih _ h.2
-    exact ⟨⟨h.1, h1⟩, h2⟩
-
-theorem follows_aux (db0 : DB) (ops : List ROp) : ∀ (d : DB) (c : List Block),
-    d = c.foldl appendBlock db0 → layersOK db0 c → histOKB d c ops = true →
-    runOps d ops = (chainOf c ops).foldl appendBlock db0 ∧ layersOK db0 (chainOf c ops) := by
-  induction ops with
-  | nil => intro d c hd hl _; exact ⟨hd, hl⟩
-  | cons o r ih =>
-    intro d c hd hl hok
-    cases o with
-    | app b =>
-      simp only [histOKB, Bool.and_eq_true] at hok
-      have hb := hok.1
-      rw [hd] at hb
-      refine ih (appendBlock d b) (c ++ [b]) (by rw [List.foldl_append, hd]; rfl)
-        (layersOK_snoc db0 c b hl hb) hok.2
-    | rb =>
-      simp only [histOKB, Bool.and_eq_true, Bool.not_eq_true', List.isEmpty_eq_false_iff] at hok
-      have hne := hok.1
-      obtain ⟨c', b, hc⟩ : ∃ c' b, c = c' ++ [b] :=
-        ⟨c.dropLast, c.getLast hne, (List.dropLast_concat_getLast hne).symm⟩
-      subst hc
-      obtain ⟨h1, h2⟩ := layersOK_dropLast db0 c' b hl
-      have hd' : Rich.rollback d = c'.foldl appendBlock db0 := by
-        rw [hd, List.foldl_append]
-        exact rollback_of_layerCheck h2
-      have hdl : (c' ++ [b]).dropLast = c' := List.dropLast_concat
-      have := ih (Rich.rollback d) c' hd' h1 (by rw [← hdl]; exact hok.2)
-      show runOps (Rich.rollback d) r = (chainOf (c' ++ [b]).dropLast r).foldl appendBlock db0 ∧
-        layersOK db0 (chainOf (c' ++ [b]).dropLast r)
-      rw [hdl]
-      exact this
-
 /-- **the rich-indexer follows the chain through reorganisations of ANY depth**: after any history of
 appends and rollbacks (each rollback removes the block appended last that is still there; any number
 of rollbacks in a row, down to the starting database; any number of reorganisations), the database is
@@ -318,15 +247,6 @@ example :
     runOps {} [ROp.app rq0, .app rq1, .app rq2, .rb, .rb, .app rq1'] = [rq0, rq1'].foldl appendBlock {} :=
   ⟨by decide, (rich_follows_chain_any_reorg {} _ (by decide)).1⟩
 
-def rollbackN : Nat → DB → DB
-  | 0, d => d
-  | n + 1, d => rollbackN n (Rich.rollback d)
-
-theorem rollbackN_succ' (n : Nat) (d : DB) : rollbackN (n + 1) d = Rich.rollback (rollbackN n d) := by
-  induction n generalizing d with
-  | zero => rfl
-  | succ n ih => exact ih (Rich.rollback d)
-
 /-- **a rollback of any depth**: appending `k` blocks (each a layer on the database before it) and
 rolling back `k` times restores the database EXACTLY, for every `k`. -/
 theorem rich_rollback_any_depth (db : DB) (bs : List Block) (h : layersOK db bs) :
@@ -337,6 +257,56 @@ theorem rich_rollback_any_depth (db : DB) (bs : List Block) (h : layersOK db bs)
     show rollbackN (r.length + 1) (r.foldl appendBlock (appendBlock db b)) = db
     rw [rollbackN_succ', ih (appendBlock db b) h.2]
     exact rollback_of_layerCheck h.1
+
+/-! ### LIMIT / CURSOR of the relational `get_cells`, and `get_cells_capacity` -/
+
+/-- **LIMIT / CURSOR of the rich-indexer's `get_cells`** (cursor = `output.id`, `WHERE output.id > c`
+ascending / `< c` descending): in EVERY database reached from the empty one by any interleaving of
+`append` (any block) and `rollback`, for every search (lock / type, exact / prefix / partial mode,
+any filter), order and limit ≥ 1: following `last_cursor` from the first call until a page comes back
+empty terminates within `|answer| + 1` calls, and the pages concatenate to EXACTLY the unlimited
+answer in the requested direction — no row lost, none duplicated. -/
+theorem rich_get_cells_pages_concat {db : DB} (hr : Reachable db) (ls : Bool) (m : Mode) (q : Script)
+    (f : Filter) (desc : Bool) (limit : Nat) (hl : 1 ≤ limit) (fuel : Nat)
+    (hf : (cellRows db ls m q f).length < fuel) :
+    (getCellsPages db ls m q f desc limit fuel none).flatten =
+      (if desc then (cellRows db ls m q f).reverse else cellRows db ls m q f) ∧
+    (getCellsPages db ls m q f desc limit fuel none).getLast? = some [] ∧
+    ∀ lim, (cellRows db ls m q f).length ≤ lim →
+      (getCells db ls m q f desc lim none).1 = (if desc then (cellRows db ls m q f).reverse else cellRows db ls m q f) := by
+  have hs := dirSorted_of_asc (cellRows db ls m q f)
+    (cellRows_sorted ls m q f db.outs (reachable_outsAsc hr)) desc
+  obtain ⟨h1, h2⟩ := getCellsPages_from db ls m q f desc limit hl hs fuel none []
+    (if desc then (cellRows db ls m q f).reverse else cellRows db ls m q f) (by simp) rfl
+    (by cases desc <;> simpa using hf)
+  refine ⟨h1, h2, fun lim hlim => ?_⟩
+  rw [getCells_rows]
+  simp only [afterRows]
+  apply List.take_of_length_le
+  cases desc <;> simpa using hlim
+
+example :
+    (getCellsPages (appendBlock (appendBlock {} rq0) rq1) true .pre ⟨1, []⟩ {} true 1 10 none).map (·.map (·.cur)) =
+      [[3], [2], []] := by
+  decide
+
+/-- **`get_cells_capacity` of the rich-indexer = the sum over the `get_cells` answer** (every database,
+search and filter): `None` iff the unlimited `get_cells` answer is empty (SQL `SUM` over no row),
+otherwise the sum of the capacities of exactly the rows one `get_cells` call with a covering limit
+returns. -/
+theorem rich_capacity_eq_get_cells (db : DB) (ls : Bool) (m : Mode) (q : Script) (f : Filter) :
+    getCellsCapacity db ls m q f =
+      (let page := (getCells db ls m q f false (cellRows db ls m q f).length none).1
+       if page.isEmpty then none else some ((page.map fun r => r.cell.out.cap).foldl (· + ·) 0)) := by
+  have : (getCells db ls m q f false (cellRows db ls m q f).length none).1 = cellRows db ls m q f := by
+    rw [getCells_rows]
+    simp [afterRows]
+  simp only [this]
+  rfl
+
+example : getCellsCapacity (appendBlock (appendBlock {} rq0) rq1) true .pre ⟨1, []⟩ {} = some 1500 ∧
+    getCellsCapacity (appendBlock (appendBlock {} rq0) rq1) true .exact ⟨9, []⟩ {} = none := by
+  decide
 
 example : rollbackN 3 ([rq0, rq1, rq2].foldl appendBlock {}) = {} :=
   rich_rollback_any_depth {} [rq0, rq1, rq2] (by refine ⟨by decide, by decide, by decide, trivial⟩)
